@@ -66,7 +66,7 @@ def jobs():
         js.append(Job("B2-decrypt-request@k%d" % nd, "C14/c14d.c", "c14_b2_decrypt", du, extra_src=EXTRA, defines=["NDELIV=%d" % nd, "ENV_LOG_QUIET"],
                       remove_bodies=["__CPROVER_file_local_coap_oscore_c_build_and_send_error_pdu", "__CPROVER_file_local_coap_oscore_c_dump_cose",
                                      "oscore_log_hex_value", "oscore_log_int_value", "oscore_log_char_value"],
-                      unwind=24, flags=["--max-field-sensitivity-array-size", "200"], group="B2-decrypt-request", timeout=1500, est_gb=6,
+                      unwind=24, flags=["--max-field-sensitivity-array-size", "200"], group="B2-decrypt-request", timeout=1500, est_gb=6, tier="thorough",
                       desc="coap_oscore_decrypt_pdu, server side, %d delivery(ies) of a protected request: key/nonce/AAD vs RFC 8613, association, replay state (AEAD model)" % nd,
                       bounds={"deliveries": nd, "layout": "POST, token 2, OSCORE {piv 1, kid 1}, inner {code, Uri-Path a}"}))
     return js
